@@ -379,9 +379,17 @@ AllocWrite(s, r, entries) ==
   ELSE LET w == WriteAllocs(s, r, entries)
        IN IF w.ok THEN Done(w.s, 204, NoBody) ELSE Err(s, r, w.status, w.code)
 
+\* The list form of PUT /allocations (below 1.12) can name a provider more than once, which a
+\* JSON object cannot: the handler turns the list into a dictionary, the last entry of a
+\* provider replaces the earlier ones.
+LastWins(allocs) ==
+  SelectSeq([i \in DOMAIN allocs |-> [allocs[i] EXCEPT !.u = IF \E j \in DOMAIN allocs : j > i /\ allocs[j].u = allocs[i].u
+                                                              THEN "" ELSE @]],
+            LAMBDA x : x.u # "")
+
 AllocPut(s, r) ==
   LET e == [c |-> r.c, project |-> r.project, user |-> r.user, cgen |-> r.cgen,
-            ctype |-> r.ctype, allocs |-> r.allocs]
+            ctype |-> r.ctype, allocs |-> LastWins(r.allocs)]
   IN IF r.v < 28 /\ r.allocs = <<>> THEN Err(s, r, 400, UNDEF)
      ELSE AllocWrite(s, r, <<e>>)
 
